@@ -31,12 +31,15 @@ VALID = [
     ".include \"once.mac\"\n.word once1\n",
     "nop\n.include \"pinc.mac\"\n.include \"once.mac\"\n.include \"once.mac\"\n",
     ".include \"sub/pinc2.mac\"\n.include \"diag.mac\"\n",
+    # every radix prefix, in upper and lower case (whatever the parser remembers about a prefix must not outlive the number)
+    "nop\n\n\n        .word ^X1F, ^B101, ^O17, ^D99\n\tmov #^xff, r0\n\t.byte ^b11, ^o7, ^d8\n",
 ]
 WARNING = [".byte\n", ".list\n", "mov @r1, r0\n", ".word\n.title demo\n", "clr @(r2)\nnop halt\n", ".include \"diag.mac\"\n"]
 ERROR = [".word undef\n", ".byte 400\n", "mov r0\n", "br far\n.blkb 1000\nfar:\n", "x: nop\nx: nop\n", ".word 1/0\n",
          ".byte 1\n.word 2\n", ". = . - 2\n", ".link 1000\n.link 2000\n", ".include \"nope.mac\"\n", ".error stop\n.word 18\n",
          ".include \"bad.mac\"\n", "nop\n.include \"bad.mac\"\n.include \"once.mac\"\n"]
-CRITICAL = [".word (1\n", "mov r0,\n", ".ascii \"abc\n", "a = \n", "nop , r0\n", ".word ^Q1\n", "mov #\n"]
+CRITICAL = [".word (1\n", "mov r0,\n", ".ascii \"abc\n", "a = \n", "nop , r0\n", ".word ^Q1\n", "mov #\n",
+            "nop\nnop\n\t\t.word 1, ^XG\n", ".byte ^B2\n", "x = ^O8\n", "\n\n\n\n.word ^DA\n"]
 CRASHERS = ["@.\n", "clr (%a)\n", ".word 1 { }\n", "make_wav \"αβγ\"\n", "'\\", "make_raw \"a\" <4294967296.>\n", "ldf %a, ac0\n", "br #.\n"]
 LAZY_ERROR = ["nop\n.blkb 2\n.word later + undef1\nlater:\n", "a = b / 2\nb = c - undef2\nc = 1\n.word a\n", ".byte 1\n.blkb n\n.word 2\nn = 2\n"]
 CYCLE = [".blkb a\na:\n", "a = b * 2\nb = a / 2\n", "a = a / 2\n", ".blkw q\nnop\nq:\n"]
@@ -131,7 +134,10 @@ table:  .byte 1, 2, 3, size / 2
 count:  .word (fin - table) / 2
         .repeat 3 { .word . / 2, fin }
 size = fin - start
-fin:    rts pc
+vram = 40000
+screen = 40000
+fin:
+twin:   rts pc
         .word a, b, c
 a = b * 2 + 1
 b = c / 2
@@ -184,6 +190,16 @@ P6 = """        .include "diag.mac"
         .word dq
         .include "bad.mac"
 """
+P7 = """        nop
+        .word ^X1F
+        .byte ^B101, ^O17
+        .even
+bad:    .word ^D12, ^XG
+"""
+P8 = """        .byte ^O7
+        .even
+        mov #^B2, r0
+"""
 P4FS = {
     "pinc.mac": "px1 == 5\n.word px1, priv\npriv = 3\nplbl:: nop\n",
     "sub/pinc2.mac": "insert_file \"../data.bin\"\n.word . / 2\n",
@@ -200,6 +216,8 @@ PROBES = [
     ("p4", [("p4.mac", P4)], P4FS),
     ("p5", [("p5.mac", P5)], None),
     ("p6", [("p6.mac", P6)], P4FS),
+    ("p7", [("p7.mac", P7)], None),
+    ("p8", [("p8.mac", P8)], None),
 ]
 
 
